@@ -4,6 +4,7 @@
 COMMON_ASSUME = [
     "reference model of DESIGN.md section 2 (cross-checked against an operational twin in harness/model)",
     "SHA-256 / SHA-512/256 from the Go standard library; no hash collisions among generated leaves (distinct in their first 12 bytes)",
+    "leaf hashes: sha256 values, except that a quarter of the slots carry a byte pattern (8 leading zero bytes; zero outside bytes 8..11; 20 trailing zero bytes; 0xff runs) and one case in three has ONE sparse leaf whose first 12 bytes are zero (non-zero only in bytes 16..23 / 24..31 / 12..15 / byte 31 / 12..31); byte patterns outside these are not generated",
     "pgregory.net/rapid v1.3.0 generators; every random choice is a rapid draw seeded from VERIF_SEED",
     "slices returned by Prove, GetRoots and GetLeafHashPositions are, once judged, overwritten by the harness and kept: after later calls they must read as the harness left them",
     "a quarter of the generated map forests run on caller-supplied stores (harness implementations of NodesInterface / CachedLeavesInterface with plain map semantics and descending ForEach order)",
@@ -158,7 +159,7 @@ CHECKS["C06"] = {
     "thorough": {"shards": 16, "checks": 4000},
     "rule": "rapid-generated sequences of block / undo (depth 1 or a random depth up to the whole history) / redo-the-undone-block steps, new blocks after an "
             "undo use leaves with different hashes (branch salt); run on Pollard, a full MapPollard and a partial MapPollard (generated TotalRows; partial "
-            "forests Verify(remember) a block's deletions first). Undo gets (numAdds, the block's proof, its deleted hashes, the previous roots) from the instance's recycled argument buffers; every other undo hands a FULL map forest a record carrying the targets only (it rebuilds the proof hashes itself). "
+            "forests Verify(remember) a block's deletions first). Undo gets (numAdds, the block's proof, its deleted hashes, the previous roots) from the instance's recycled argument buffers; every other undo hands a FULL map forest a record carrying the targets only (it rebuilds the proof hashes itself). One step in eight (while a block can still be undone) writes every forest out and replaces it by what its own bytes restore to, so that undos and redos also run on restored objects. "
             " Oracles: (1) after every step each instance equals the reference model (roots, count, every live leaf's position, not-found for every "
             "deleted or undone leaf, GetHash of every existing node, canonical proofs of 6 probe subsets, tracked-leaf count); (2) after each undo the "
             "instance equals the snapshot taken right before the undone block (positions of every hash ever added, GetHash at every position <= maxPos, "
